@@ -254,11 +254,17 @@ def lock_order_case():
         tr = c.transport
         real = tr._send_user_message
 
+        ungated = []
+
         def watched(m):
             held.append(c.lock.locked())
             return real(m)
+
+        def direct(m):
+            ungated.append(m)                   # Transport._send_message: not held back during a key exchange
+            return watched(m)
         tr._send_user_message = watched
-        tr._send_message = watched
+        tr._send_message = direct
         call = ctx.choice("channel-call", CHANNEL_CALLS)
         state = ctx.choice("channel-state", ["open", "eof-sent", "eof-received", "closed"])
         win = ctx.choice("send-window", [0, 5])
@@ -331,6 +337,7 @@ def lock_order_case():
         except (OSError, EOFError, CH.SSHException):
             ctx.reach("call-refused-in-this-state")
         ctx.prove(not any(held), "no-message-is-handed-to-the-transport-while-Channel.lock-is-held")
+        ctx.prove(len(ungated) == 0, "every-channel-message-goes-through-the-gated-_send_user_message")
         ctx.prove(not c.lock.locked(), "Channel.lock-released-on-every-way-out")
         if held:
             ctx.reach("a-message-was-sent")
